@@ -130,13 +130,14 @@ JudgeFile(e) ==
       ref == [avail |-> e.ref_avail, ok |-> e.ref_ok, out |-> D(e.ref_out)]
       s1 == RefReadStep(CompressStep(Fresh(e.limit), c, e.level, D(raw), D(e.payload), "library"), ref)
       tool == If(c \in CodecNames /\ e.level \in Levels(c) /\ Len(e.values) > 0, "TOOL:codec-or-level-outside-the-model")
-              \cup If(~e.w_ok \/ (e.split_ok /\ e.sync_ok), "TOOL:container-splitter")
+              \* the harness' own splitter must cope with every file the crate's Reader can read
+              \cup If(~e.w_ok \/ (e.split_ok /\ e.sync_ok) \/ ~e.r_ok, "TOOL:container-splitter")
               \cup If(~e.w_ok \/ (e.ref_avail <=> c \in ReferenceCodecs), "TOOL:reference-reading-missing")
       one == e.w_ok /\ e.split_ok /\ e.nblocks = 1
       fail == If(e.w_ok, "C15:file-write-failed") \cup If(~e.r_panic, "C15:panic")
+              \cup If(~e.w_ok \/ (e.r_ok /\ e.r_values = e.values), "C15:file-roundtrip")
               \cup (IF ~(e.w_ok /\ e.split_ok) THEN {} ELSE
                     If(cm.ok /\ cm.codec = c, "C15:header-codec-name")
-                    \cup If(e.r_ok /\ e.r_values = e.values, "C15:file-roundtrip")
                     \cup If(~one \/ StreamInv(s1), StreamClause(c))
                     \cup If(~one \/ TrailerInv(s1), "C15:snappy-trailer-not-BE-CRC32-of-input")
                     \cup If(~one \/ ReferenceInv(s1), IF e.ref_ok THEN "C15:reference-decoder-reads-other-data"
